@@ -58,6 +58,11 @@ pub struct FamParams {
     /// an extra column whose gate is configured FIRST and whose first query is at rotation -1,
     /// so that the first opening point of the proof is not x itself
     pub rot_first: bool,
+    /// a table lookup whose table does NOT contain the all-zero row (the input expression is
+    /// `q*b + (1-q)*3` into {3, 6, .., 24})
+    pub lookup_nz: bool,
+    /// redundant copy constraints: the same pair tied twice and a triangle of three cells
+    pub copy_dup: bool,
 }
 
 impl Default for FamParams {
@@ -84,6 +89,8 @@ impl FamParams {
             rows: 1,
             fx_tweak: 0,
             rot_first: false,
+            lookup_nz: false,
+            copy_dup: false,
         }
     }
     /// Everything on.
@@ -104,6 +111,8 @@ impl FamParams {
             rows: 3,
             fx_tweak: 0,
             rot_first: false,
+            lookup_nz: true,
+            copy_dup: true,
         }
     }
     /// Short canonical name used in case keys.
@@ -120,6 +129,8 @@ impl FamParams {
             (self.trash, 't'),
             (self.unblinded, 'u'),
             (self.rot_first, 'z'),
+            (self.lookup_nz, 'n'),
+            (self.copy_dup, 'd'),
         ] {
             if on {
                 s.push(c);
@@ -160,6 +171,9 @@ pub struct FamConfig {
     pub q_iq: Option<Selector>,
     pub z: Option<Column<Advice>>,
     pub q_z: Option<Selector>,
+    pub ch1b: Option<Challenge>,
+    pub t_nz: Option<TableColumn>,
+    pub q_nz: Option<Selector>,
 }
 
 /// Identifier of an assigned advice cell: (region, column tag, offset in region).
@@ -343,10 +357,12 @@ impl<PL: FloorPlanner> Circuit<F> for Fam<PL> {
             meta.enable_equality(col);
         }
         let u = p.unblinded.then(|| meta.unblinded_advice_column());
-        let (mut d, mut e, mut ch1, mut ch2) = (None, None, None, None);
+        let (mut d, mut e, mut ch1, mut ch2, mut ch1b) = (None, None, None, None, None);
         if p.phases >= 2 {
             d = Some(meta.advice_column_in(SecondPhase));
             ch1 = Some(meta.challenge_usable_after(FirstPhase));
+            // a second challenge usable after the same phase (its index differs from its phase)
+            ch1b = Some(meta.challenge_usable_after(FirstPhase));
         }
         if p.phases >= 3 {
             e = Some(meta.advice_column_in(ThirdPhase));
@@ -403,6 +419,18 @@ impl<PL: FloorPlanner> Circuit<F> for Fam<PL> {
                 vec![(q_ * b_, tc)]
             });
         }
+        let mut t_nz = None;
+        let q_nz = p.lookup_nz.then(|| meta.complex_selector());
+        if let Some(q) = q_nz {
+            let tc = meta.lookup_table_column();
+            t_nz = Some(tc);
+            meta.lookup("nz", |m| {
+                let q_ = m.query_selector(q);
+                let b_ = m.query_advice(b, Rotation::cur());
+                let not_q = Expression::Constant(F::ONE) - q_.clone();
+                vec![(q_ * b_ + not_q * Expression::Constant(F::from(3)), tc)]
+            });
+        }
         let (mut tfa, mut tfb) = (None, None);
         let q_la = p.lookup_any.then(|| meta.complex_selector());
         if let Some(q) = q_la {
@@ -445,13 +473,14 @@ impl<PL: FloorPlanner> Circuit<F> for Fam<PL> {
             });
         }
         let q_p2 = (p.phases >= 2).then(|| meta.selector());
-        if let (Some(q), Some(d), Some(ch1)) = (q_p2, d, ch1) {
+        if let (Some(q), Some(d), Some(ch1), Some(ch1b)) = (q_p2, d, ch1, ch1b) {
             meta.create_gate("p2", |m| {
                 let a_ = m.query_advice(a, Rotation::cur());
                 let b_ = m.query_advice(b, Rotation::cur());
                 let d_ = m.query_advice(d, Rotation::cur());
                 let ch = m.query_challenge(ch1);
-                Constraints::with_selector(q, vec![("p2", d_ - a_ * ch - b_)])
+                let chb = m.query_challenge(ch1b);
+                Constraints::with_selector(q, vec![("p2", d_ - a_ * ch - b_ * chb)])
             });
         }
         let q_p3 = (p.phases >= 3).then(|| meta.selector());
@@ -502,6 +531,9 @@ impl<PL: FloorPlanner> Circuit<F> for Fam<PL> {
             q_iq,
             z,
             q_z,
+            ch1b,
+            t_nz,
+            q_nz,
         }
     }
 
@@ -603,6 +635,30 @@ impl<PL: FloorPlanner> Circuit<F> for Fam<PL> {
             )?;
         }
 
+        // --- table lookup into a table without the zero row
+        if let (Some(q), Some(t)) = (cfg.q_nz, cfg.t_nz) {
+            layouter.assign_table(
+                || "t_nz",
+                |mut table| {
+                    for j in 0..8u64 {
+                        table.assign_cell(|| "t_nz", t, j as usize, || Value::known(F::from(3 * (j + 1))))?;
+                    }
+                    Ok(())
+                },
+            )?;
+            layouter.assign_region(
+                || "nz",
+                |mut region| {
+                    for j in 0..2 {
+                        q.enable(&mut region, j)?;
+                        let v = self.wv(|w| F::from(3 * (1 + low_bits(&w.ys[j % rows], 8))));
+                        self.put(&mut region, "nz", "b", cfg.b, j, v)?;
+                    }
+                    Ok(())
+                },
+            )?;
+        }
+
         // --- lookup_any against two fixed columns
         if let (Some(q), Some(ta), Some(tb)) = (cfg.q_la, cfg.tfa, cfg.tfb) {
             layouter.assign_region(
@@ -673,6 +729,7 @@ impl<PL: FloorPlanner> Circuit<F> for Fam<PL> {
         // --- later phases
         if let (Some(q2), Some(d), Some(ch1)) = (cfg.q_p2, cfg.d, cfg.ch1) {
             let c1 = layouter.get_challenge(ch1);
+            let c1b = layouter.get_challenge(cfg.ch1b.expect("second first-phase challenge"));
             let c2 = cfg.ch2.map(|c| layouter.get_challenge(c));
             layouter.assign_region(
                 || "ph",
@@ -680,7 +737,11 @@ impl<PL: FloorPlanner> Circuit<F> for Fam<PL> {
                     q2.enable(&mut region, 0)?;
                     self.put(&mut region, "ph", "a", cfg.a, 0, self.wv(|w| w.xs[0]))?;
                     self.put(&mut region, "ph", "b", cfg.b, 0, self.wv(|w| w.ys[0]))?;
-                    let dv = self.wv(|w| (w.xs[0], w.ys[0])).zip(c1).map(|((x, y), c)| x * c + y);
+                    let dv = self
+                        .wv(|w| (w.xs[0], w.ys[0]))
+                        .zip(c1)
+                        .zip(c1b)
+                        .map(|(((x, y), c), cb)| x * c + y * cb);
                     self.put(&mut region, "ph", "d", d, 0, dv)?;
                     if let (Some(q3), Some(e), Some(c2)) = (cfg.q_p3, cfg.e, c2) {
                         q3.enable(&mut region, 0)?;
@@ -702,6 +763,15 @@ impl<PL: FloorPlanner> Circuit<F> for Fam<PL> {
                         let v = self.wv(|w| w.xs[0]);
                         let cell = self.put(&mut region, "cp", "a", cfg.a, 0, v)?;
                         region.constrain_equal(cell.cell(), main_ins[0].cell())?;
+                        if p.copy_dup {
+                            // the same pair again, in the other direction
+                            region.constrain_equal(main_ins[0].cell(), cell.cell())?;
+                            // and a triangle cp.a[0] = cp.a[1], cp.a[1] = mn.a[0], (mn.a[0] = cp.a[0])
+                            let cell1 = self.put(&mut region, "cp", "a", cfg.a, 1, v)?;
+                            region.constrain_equal(cell.cell(), cell1.cell())?;
+                            region.constrain_equal(cell1.cell(), main_ins[0].cell())?;
+                            region.constrain_equal(main_ins[0].cell(), cell.cell())?;
+                        }
                     }
                     if p.copy_const {
                         let cell =
@@ -750,4 +820,39 @@ impl<PL: FloorPlanner> Circuit<F> for Fam<PL> {
 /// Which constraint classes protect a cell (used for anti-vacuity accounting in C02).
 pub fn is_junk(cell: &CellId) -> bool {
     cell.0 == "jk"
+}
+
+/// What a cell is tied to by a copy constraint.
+#[derive(Clone, Debug, PartialEq)]
+pub enum Tie {
+    Cell(CellId),
+    Inst(usize, usize),
+    Const(F),
+}
+
+/// The copy constraints the family creates, as declared by construction (independent of the
+/// permutation assembly of the code under test).
+pub fn ties(p: &FamParams) -> Vec<(CellId, Tie)> {
+    let mut t = vec![];
+    let n = p.n_inst as usize;
+    if p.copy_inst {
+        for j in 0..p.rows as usize {
+            let (col, row) = (j % n, 2 + j / n);
+            if row < ILEN {
+                t.push((("mn", "c", j), Tie::Inst(col, row)));
+            }
+        }
+        t.push((("cp", "c", 0), Tie::Inst(0, 0)));
+    }
+    if p.copy_adv {
+        t.push((("cp", "a", 0), Tie::Cell(("mn", "a", 0))));
+        if p.copy_dup {
+            t.push((("cp", "a", 1), Tie::Cell(("mn", "a", 0))));
+            t.push((("cp", "a", 1), Tie::Cell(("cp", "a", 0))));
+        }
+    }
+    if p.copy_const {
+        t.push((("cp", "b", 0), Tie::Const(F::from(5))));
+    }
+    t
 }
